@@ -149,6 +149,18 @@ func VH_C14_return() {
 		h = func() (int, *string) { return code, p }
 	case "custom":
 		h = func() (int, string) { return code, text }
+	case "custom-zero":
+		// results the default table answers with silence: a registered return handler still decides
+		switch vx.Choice(4) {
+		case 0:
+			h = func() error { return nil }
+		case 1:
+			h = func() string { return "" }
+		case 2:
+			h = func() (int, string) { return 0, "" }
+		case 3:
+			h = func() (string, error) { return "", nil }
+		}
 	}
 
 	f := NewWithLogger(io.Discard)
@@ -159,6 +171,9 @@ func VH_C14_return() {
 			vx.Assert(len(vals) == 2 && vals[0].Kind() == reflect.Int && int(vals[0].Int()) == code && vals[1].String() == text,
 				"C14: a registered return handler receives the handler's results unchanged")
 		}))
+	}
+	if shape == "custom-zero" {
+		f.Map(ReturnHandler(func(c Context, vals []reflect.Value) { customCalled++ }))
 	}
 	lateCustom := 0
 	if shape == "late-custom" {
@@ -184,6 +199,11 @@ func VH_C14_return() {
 	if shape == "late-custom" {
 		vx.Assert(lateCustom == 1 && spy.headers == 0 && spy.writes == 0, "C14: a return handler registered in the injector (request scope, during the request) replaces the table from then on")
 		vx.Observe("late-custom", lateCustom)
+		return
+	}
+	if shape == "custom-zero" {
+		vx.Assert(customCalled == 1, "C14: a return handler registered in the injector replaces the table (also for results the table answers with silence)")
+		vx.Observe("custom-zero", customCalled)
 		return
 	}
 	if shape == "custom" {
